@@ -69,13 +69,13 @@ Qed.
 (** the part of one iteration that runs BEFORE the annotation is parsed (lines 142-214: branch
     opening, ring look-ahead, bond symbol, multiplier count) *)
 Definition pre_parse_ok (st : rstate) (pc : ascii) (rest : pystr) : Prop :=
-  exists x rs rdx bo n, opened st pc = Ok x /\
+  exists x rs rdx bo n bo', opened st pc = Ok x /\
     ring_scan (s_current st) rest 0 (clean_st (s_cycle st) []) = Ok (rs, rdx) /\
-    bond_expr rest rdx = Ok bo /\ nmon_expr rest = Ok n.
+    bond_expr rest rdx = Ok bo /\ nmon_expr rest bo = Ok (n, bo').
 Lemma node_step_annotation_error fo st pc nm rest e :
   pre_parse_ok st pc rest -> parse_graph_base_node fo nm = Err e -> node_step fo st pc nm rest = Err e.
 Proof.
-  intros (x & rs & rdx & bo & n & Ho & Hr & Hb & Hn) Hp. rewrite node_step_eq, Ho. destruct x as [[br ba] rc].
+  intros (x & rs & rdx & bo & n & bo' & Ho & Hr & Hb & Hn) Hp. rewrite node_step_eq, Ho. destruct x as [[br ba] rc].
   cbn [bind]. rewrite Hr. cbn [bind]. rewrite Hb. cbn [bind]. rewrite Hn. cbn [bind]. rewrite Hp. reflexivity.
 Qed.
 (** an Err of the dialect parser on the text of ANY node is the result of read_cgsmiles *)
@@ -107,12 +107,12 @@ Definition graph_at_check (st : rstate) (a : attrs) : graph :=
   let g1 := add_node (s_g st) (s_current st) a in
   match s_prev_node st with Some p => add_edge g1 p (s_current st) (order_attr (s_pbo st)) | None => g1 end.
 
-Lemma node_step_duplicate fo st pc nm rest x rs rdx bo n a pre u v o post g' :
+Lemma node_step_duplicate fo st pc nm rest x rs rdx bo n bo' a pre u v o post g' :
   opened st pc = Ok x ->
   ring_scan (s_current st) rest 0 (clean_st (s_cycle st) []) = Ok (rs, rdx) ->
-  bond_expr rest rdx = Ok bo -> nmon_expr rest = Ok n -> 0 < n ->
+  bond_expr rest rdx = Ok bo -> nmon_expr rest bo = Ok (n, bo') -> 0 < n ->
   parse_graph_base_node fo nm = Ok a -> ahas (S "node_for_adding") a = false ->
-  (fst (fst x) = true -> s_branch_anchor st ++ (if Ascii.eqb pc "("%char then [s_prev_node st] else []) <> []) ->
+  (fst (fst x) = true -> snd (fst x) <> []) ->
   r_ces rs = pre ++ (u, v, o) :: post ->
   add_cycle_edges (graph_at_check st a) pre = Ok g' -> has_edge g' u v = true ->
   node_step fo st pc nm rest = Err (ESyntax (S "double")).
@@ -121,11 +121,8 @@ Proof.
   cbn [bind]. rewrite Hr. cbn [bind]. rewrite Hb. cbn [bind]. rewrite Hn. cbn [bind]. rewrite Hp. cbn [bind].
   assert (Hrec : exists rc', (if br then match rev ba with [] => Err EIndex | k :: _ => Ok (rec_append k (n, a, s_pbo st) rc) end
                               else Ok rc) = Ok rc').
-  { destruct br; [|eauto]. cbn [fst] in Hba. specialize (Hba eq_refl).
-    unfold opened in Ho. destruct (Ascii.eqb pc "("%char).
-    - destruct (s_attributes st); cbn in Ho; inversion Ho; subst. rewrite rev_app_distr. cbn. eauto.
-    - inversion Ho; subst. rewrite app_nil_r in Hba. destruct (rev (s_branch_anchor st)) eqn:E; [|eauto].
-      exfalso. apply Hba. apply (f_equal (@rev _)) in E. now rewrite rev_involutive in E. }
+  { destruct br; [|eauto]. cbn [fst snd] in Hba. specialize (Hba eq_refl).
+    destruct (rev ba) eqn:E; [|eauto]. exfalso. apply Hba. apply (f_equal (@rev _)) in E. now rewrite rev_involutive in E. }
   destruct Hrec as [rc' ->]. cbn [bind].
   destruct (Z.to_nat n) as [|n'] eqn:En; [lia|]. cbn [add_nodes]. unfold py_add_node. rewrite Ha. cbn [bind].
   change (match s_prev_node st with
@@ -135,21 +132,21 @@ Proof.
 Qed.
 (** a ring bond closing over an edge that exists when it is checked: the documented SyntaxError, at
     whatever node position *)
-Theorem reader_duplicate_rejected fo pattern pc s st pc1 nm rest x rs rdx bo n a pre u v o post g' :
+Theorem reader_duplicate_rejected fo pattern pc s st pc1 nm rest x rs rdx bo n bo' a pre u v o post g' :
   reaches fo (last pattern " "%char) pattern init_state pc s st ->
   next_node pc s = Some (pc1, nm, rest) ->
   opened st pc1 = Ok x ->
   ring_scan (s_current st) rest 0 (clean_st (s_cycle st) []) = Ok (rs, rdx) ->
-  bond_expr rest rdx = Ok bo -> nmon_expr rest = Ok n -> 0 < n ->
+  bond_expr rest rdx = Ok bo -> nmon_expr rest bo = Ok (n, bo') -> 0 < n ->
   parse_graph_base_node fo nm = Ok a -> ahas (S "node_for_adding") a = false ->
-  (fst (fst x) = true -> s_branch_anchor st ++ (if Ascii.eqb pc1 "("%char then [s_prev_node st] else []) <> []) ->
+  (fst (fst x) = true -> snd (fst x) <> []) ->
   r_ces rs = pre ++ (u, v, o) :: post ->
   add_cycle_edges (graph_at_check st a) pre = Ok g' -> has_edge g' u v = true ->
   read_cgsmiles fo pattern = Err (ESyntax (S "double")).
 Proof.
   intros R Hn Ho Hr Hb Hm Hpos Hp Ha Hba Hces Hpre He.
   apply (read_err_at fo pattern pc s st pc1 nm rest _ R Hn).
-  now apply (node_step_duplicate fo st pc1 nm rest x rs rdx bo n a pre u v o post g').
+  now apply (node_step_duplicate fo st pc1 nm rest x rs rdx bo n bo' a pre u v o post g').
 Qed.
 
 (** non-vacuity: the ring bond 2 of {[#A]1[#B]([#C]2[#D]2)[#E]1} duplicates the edge C-D inside a
